@@ -151,11 +151,11 @@ class MpReachNLRI(Attribute):
                 # of Next Hop field and the peer the route is being advertised to.
                 nexthop_addrlen = 16
                 has_link_local = False
-                nexthop = str(netaddr.IPAddress(int(binascii.b2a_hex(nexthop_bin[:nexthop_addrlen]), 16)))
+                nexthop = str(netaddr.IPAddress(int(binascii.b2a_hex(nexthop_bin[:nexthop_addrlen]), 16), 6))
                 if len(nexthop_bin) == 2 * nexthop_addrlen:
                     # has link local address
                     has_link_local = True
-                    linklocal_nexthop = str(netaddr.IPAddress(int(binascii.b2a_hex(nexthop_bin[nexthop_addrlen:]), 16)))
+                    linklocal_nexthop = str(netaddr.IPAddress(int(binascii.b2a_hex(nexthop_bin[nexthop_addrlen:]), 16), 6))
                 nlri = IPv6Unicast.parse(nlri_bin, addpath=add_path)
                 if has_link_local:
                     return dict(afi_safi=(afi, safi), nexthop=nexthop, linklocal_nexthop=linklocal_nexthop, nlri=nlri)
@@ -166,14 +166,14 @@ class MpReachNLRI(Attribute):
                 # parse nexthop
                 rd_bin = nexthop_bin[0:8]
                 nexthop_rd = IPv6MPLSVPN.parse_rd(rd_bin)
-                ipv6 = str(netaddr.IPAddress(int(binascii.b2a_hex(nexthop_bin[8:]), 16)))
+                ipv6 = str(netaddr.IPAddress(int(binascii.b2a_hex(nexthop_bin[8:]), 16), 6))
                 nexthop = {'rd': nexthop_rd, 'str': ipv6}
                 # parse nlri
                 nlri = IPv6MPLSVPN.parse(nlri_bin, addpath=add_path)
                 return dict(afi_safi=(afi, safi), nexthop=nexthop, nlri=nlri)
             elif safi == safn.SAFNUM_MPLS_LABEL:
                 if nexthop_bin:
-                    nexthop = str(netaddr.IPAddress(int(binascii.b2a_hex(nexthop_bin), 16)))
+                    nexthop = str(netaddr.IPAddress(int(binascii.b2a_hex(nexthop_bin), 16), 6))
                 else:
                     nexthop = ''
                 nlri = IPv6LabeledUnicast.parse(nlri_bin, addpath=add_path)
